@@ -23,10 +23,16 @@ MANIFEST = {
              'step; object identity of _columns/_blocks between all live frames compared with the world model; ~100 public derivations x 13 '
              'sources grown in both directions with every other live container re-read and mutable members compared by identity.'),
     'note': ('trusted: Coq kernel, the hand-written models (tied to /repo by the histories of this run and, for sharing, by the regenerated tables), '
-             'the AST extractor generate() (fail closed), py2v for util.resolve_dtype, the harness. Partial: which of the other ~160 own_* call '
-             'sites alias is observed (derivation sweep, call sites counted in the evidence), not proved; IndexHierarchyGO.extend and reads of '
-             'corrupted states are modelled and compared but not covered by a refinement theorem; label equality is Python == restricted to '
-             'labels without NaN; IndexDateGO and other typed grow-only indices are not exercised.'),
+             'the AST extractor generate() (fail closed), py2v for util.resolve_dtype, the harness. Decided on the Python side only (no Coq model): the '
+             'sharing / derivation sweep, FrameGO with hierarchical or date-typed columns, typed grow-only indices (IndexYearGO / IndexYearMonthGO / '
+             'IndexDateGO), ArrayGO, and the ~110 constructor / pickle / copy routes of the routes strata (each checked against the same specification: '
+             'refused with nothing changed, or exactly the given labels appended with the data under them, sources untouched and unshared). Not covered: '
+             'which of the other ~110 own_* call sites alias is observed (derivation sweep), not proved; IndexHierarchyGO.extend on corrupted states and '
+             'reads of corrupted states are compared with M but have no refinement theorem; NaN / NaT labels; IndexSecondGO and finer units, '
+             'IndexHierarchyGO levels typed other than IndexDateGO; datetime64 / bytes CELLS in FrameGO histories (only in the TypeBlocks kernel stratum); '
+             'row reads (values) across datetime units; reindexing of Series / Frames whose own index is hierarchical inside setitem / extend; '
+             'from_pandas / from_arrow / file constructors of FrameGO; TypeBlocks.extend(iterable) with a mis-sized later block is partial by '
+             'construction of the internal API and is only compared with M.'),
     'technique': 'state-machine refinement (Coq) + recorded histories replayed through the model inside Coq + regenerated decision tables',
 }
 PROPERTY_FILES = ['Properties/C09.v']
@@ -41,7 +47,11 @@ RULE = ('a case is one HISTORY on one real container (or world of containers): c
         'duplicate, partially duplicate, rejected-at-first, wrong length, unaligned, empty, read), random (bigger shapes, all block layouts via '
         'zoo, dtypes int/float/bool/str/object, fill values), world (every class x conversion x conversion with growth in between, identity of '
         'members observed), sharing (every curated + every zero-argument public derivation of 7 frame and 6 index sources, growth in both '
-        'directions). Non-trivial = at least one accepted growth call / a grow-only container involved; distinct = distinct history.')
+        'directions), deep (depth 3/4 hierarchies: existing-last / existing-not-last / new label per depth), hier-columns / typed (FrameGO with '
+        'IndexHierarchyGO or date columns, IndexYear/YearMonth/DateGO), routes (every constructor, conversion, pickle and copy route found by coverage '
+        'measurement that yields a grow-only container, then grown; constructions that must be refused), ArrayGO, kernel:TypeBlocks-growth '
+        '(append / extend on TypeBlocks directly, all dtype kinds, 0-wide and 1-wide 2-D blocks, zero-size shapes; compared with M and S). '
+        'Non-trivial = at least one accepted growth call / a grow-only container involved; distinct = distinct history.')
 ASSUMPTIONS = ['labels are compared with Python == (1 == 1.0 == True); NaN labels are outside the model',
                'cells are observed through tolist(): floats are exact dyadic rationals by construction of the generators',
                'np.array(list).dtype is the dtype iterable_to_array_1d derives for the homogeneous lists the generators build',
@@ -1272,6 +1282,7 @@ def _frame_derivations():
         'getitem-all-labels': lambda s: s[[x if s.columns.depth == 1 else tuple(x) for x in s.columns.values]],
         'copy.copy': lambda s: __import__('copy').copy(s),
         'copy.deepcopy': lambda s: __import__('copy').deepcopy(s),
+        'pickle': lambda s: __import__('pickle').loads(__import__('pickle').dumps(s)),
         'roll-0': lambda s: s.roll(0),
         'roll-0-columns': lambda s: s.roll(0, 0),
         'shift-0': lambda s: s.shift(0),
@@ -1353,6 +1364,9 @@ def _index_derivations():
         'roll': lambda s: s.roll(1),
         'level_add': lambda s: s.level_add('L'),
         'level_drop': lambda s: s.level_drop(1),
+        'level_drop(-1)': lambda s: s.level_drop(-1),
+        'static(levels)': lambda s: sf.IndexHierarchy(s._levels),
+        'pickle': lambda s: __import__('pickle').loads(__import__('pickle').dumps(s)),
         'flat': lambda s: s.flat(),
         'to_series': lambda s: s.to_series(),
         'to_frame': lambda s: s.to_frame(),
@@ -1811,6 +1825,8 @@ def hier_deep(ctx):
             yield labels, depth, [('append', k)], [True]
         if depth == 3:
             pairs = list(itertools.product(keys, keys))
+            if ctx.tier == 'quick':
+                pairs = rng.sample(pairs, 300)
         else:
             pairs = [(rng.choice(keys), rng.choice(keys)) for _ in range(ctx.n(150, 2500))]
         for k1, k2 in pairs:
@@ -2005,6 +2021,783 @@ def typed_cases(ctx):
         yield Case('api:typed-IndexGO', desc, py_fail=problem, tags=tags,
                    nontrivial=any(st['raised'] is None for st in desc['steps']))
 
+
+
+# ----------------------------------------------------------------------------- routes: every way to obtain a grow-only container
+def _plain(v):
+    if isinstance(v, tuple):
+        return tuple(_plain(x) for x in v)
+    if isinstance(v, np.datetime64):
+        return str(v)
+    if isinstance(v, __import__('datetime').date):
+        return v.isoformat()
+    return _j(v)
+
+
+def _eq_labels(a, b):
+    return len(a) == len(b) and all(x == y for x, y in zip(a, b))
+
+
+def _labels_of(ix):
+    """Labels of an index as Python values: tuples for hierarchies; date labels as ISO strings."""
+    return [_plain(tuple(l)) if isinstance(l, tuple) else _plain(l) for l in ix]
+
+
+def growth_check_index(idx, ops, coerce=None, watched=(), key_of=None):
+    """append / extend on any grow-only index, decided on the Python side: refused with the index exactly as it
+    was, or the labels are the old labels followed by exactly the given ones (after the index's own coercion),
+    duplicates refused, positions / values / membership / loc_to_iloc in step, watched containers untouched."""
+    co = coerce or _plain
+    steps, problem = [], None
+    seen_before = [content(w) for w in watched]
+    for k, op in enumerate(ops):
+        try:
+            before = _labels_of(idx)
+        except Exception as e:  # noqa
+            problem = problem or f'before step {k + 1} the index cannot be iterated: {type(e).__name__}'
+            break
+        if op[0] == 'read':
+            exc = _call(lambda: (idx.values, len(idx), idx.positions))
+            given = []
+        elif op[0] == 'append':
+            given = [op[1]]
+            exc = _call(lambda: idx.append(op[1]))
+        else:
+            given = list(op[1]) if not hasattr(op[1], 'depth') else [tuple(x) for x in op[1]]
+            exc = _call(lambda: idx.extend(op[1]))
+        step = {'op': [op[0]] + ([_j(given)] if op[0] != 'read' else []), 'raised': None if exc is None else type(exc).__name__}
+        try:
+            after = _labels_of(idx)
+            step['labels'] = after
+            n = len(idx)
+            npos = len(idx.positions)
+            vals = idx.values.tolist()
+            if vals and isinstance(vals[0], list):
+                vals = [tuple(str(x) if isinstance(x, np.datetime64) else x for x in r) for r in vals]
+        except Exception as e:  # noqa
+            steps.append(step)
+            problem = problem or f'after step {k + 1} ({op[0]}) the index cannot be read: {type(e).__name__}: {str(e)[:80]}'
+            break
+        steps.append(step)
+        if problem or op[0] == 'read':
+            if not problem and not _eq_labels(after, before):
+                problem = f'step {k + 1}: a read changed the labels'
+            continue
+        try:
+            want = [co(v) for v in given]
+        except Exception:  # noqa -- a value the index cannot hold: it has to be refused
+            want = None
+        if exc is not None:
+            if not _eq_labels(after, before):
+                problem = f'step {k + 1}: {op[0]} {given!r} raised {type(exc).__name__} but the labels changed: {before[-3:]} -> {after[-3:]}'
+        elif want is None:
+            problem = f'step {k + 1}: {op[0]} {given!r} cannot be held by this index and was accepted'
+        elif any(any(w == b for b in before) for w in want) or any(want[i] == want[j] for i in range(len(want)) for j in range(i)):
+            problem = f'step {k + 1}: {op[0]} {given!r} holds a duplicate label and was accepted: {after[-4:]}'
+        elif not _eq_labels(after, before + want):
+            problem = f'step {k + 1}: {op[0]} {given!r} accepted: labels {after[-4:]} instead of {(before + want)[-4:]}'
+        elif n != len(after) or npos != len(after) or len(vals) != len(after):
+            problem = f'step {k + 1}: len {n}, positions {npos}, values {len(vals)} for {len(after)} labels'
+        else:
+            for i, l in enumerate(after[-len(want):] if want else []):
+                pos = len(after) - len(want) + i
+                key = key_of(given[i]) if key_of else given[i]
+                try:
+                    if idx.loc_to_iloc(key) != pos or key not in idx:
+                        problem = f'step {k + 1}: label {key!r} is not found at its position {pos}'
+                        break
+                except Exception as e:  # noqa
+                    problem = f'step {k + 1}: looking up the new label {key!r} raises {type(e).__name__}'
+                    break
+    if not problem:
+        for w, b in zip(watched, seen_before):
+            if content(w) != b:
+                problem = f'growth changed a container the index was built from: {str(b)[:100]} -> {str(content(w))[:100]}'
+                break
+            if w is idx:
+                continue
+            mine = {id(o): p_ for p_, o in mutable_parts(idx, grown_only=True)}
+            for p_, o in mutable_parts(w):
+                if id(o) in mine:
+                    problem = f'the index shares the mutable object {mine[id(o)]} with a container it was built from'
+                    break
+    return steps, problem
+
+
+def growth_check_frame(f, ops, coerce=None, watched=(), key_of=None):
+    """f[key] = values / f.extend(Frame) / f.extend(Series) on any FrameGO, decided on the Python side."""
+    import static_frame as sf
+    co = coerce or _plain
+    steps, problem = [], None
+    seen_before = [content(w) for w in watched]
+    nrows = None
+    for k, op in enumerate(ops):
+        try:
+            before = (_labels_of(f.columns), tuple(f.shape), [repr((str(d), v)) for d, v in _column_reads(f)], _labels_of(f.index))
+            nrows = before[1][0]
+        except Exception as e:  # noqa
+            problem = problem or f'before step {k + 1} the frame cannot be read: {type(e).__name__}'
+            break
+        if op[0] == 'set':
+            given = [op[1]]
+            data = np.array([[100 * (k + 1) + r] for r in range(nrows)]).reshape(nrows, 1)
+            exc = _call(lambda: f.__setitem__(op[1], data[:, 0]))
+        elif op[0] == 'set-bad':
+            given = [op[1]]
+            data = None
+            exc = _call(lambda: f.__setitem__(op[1], np.arange(nrows + 1)))
+        elif op[0] == 'ext_series':
+            given = [op[1]]
+            data = np.array([[7 * (k + 1) + r] for r in range(nrows)]).reshape(nrows, 1)
+            exc = _call(lambda: f.extend(sf.Series(data[:, 0], index=f.index, name=op[1])))
+        else:
+            given = list(op[1])
+            data = (np.arange(nrows * len(given)).reshape(nrows, len(given)) + 1000 * (k + 1))
+            kw = op[2] if len(op) > 2 else {}
+            exc = _call(lambda: f.extend(sf.Frame(data, index=f.index, columns=given, **kw)))
+        step = {'op': [op[0], _j(given)], 'raised': None if exc is None else type(exc).__name__}
+        try:
+            after = (_labels_of(f.columns), tuple(f.shape), [repr((str(d), v)) for d, v in _column_reads(f)], _labels_of(f.index))
+            step['columns'] = after[0]
+            step['shape'] = list(after[1])
+        except Exception as e:  # noqa
+            steps.append(step)
+            problem = problem or f'after step {k + 1} ({op[0]} {given!r}) the frame cannot be read: {type(e).__name__}: {str(e)[:80]}'
+            break
+        steps.append(step)
+        if problem:
+            continue
+        old = before[0]
+        try:
+            want = [co(v) for v in given]
+        except Exception:  # noqa
+            want = None
+        if exc is not None:
+            if not (_eq_labels(after[0], before[0]) and after[1] == before[1] and repr(after[2]) == repr(before[2])):
+                problem = f'step {k + 1}: {op[0]} {given!r} raised {type(exc).__name__} but the frame changed: columns {before[0][-3:]} -> {after[0][-3:]}, shape {before[1]} -> {after[1]}'
+        elif op[0] == 'set-bad':
+            problem = f'step {k + 1}: a value of the wrong length was accepted'
+        elif want is None:
+            problem = f'step {k + 1}: {given!r} cannot be a label of these columns and was accepted'
+        elif any(any(w == b for b in old) for w in want) or any(want[i] == want[j] for i in range(len(want)) for j in range(i)):
+            problem = f'step {k + 1}: {op[0]} {given!r} holds a duplicate label and was accepted: {after[0][-4:]}'
+        elif not _eq_labels(after[0], old + want) or after[1] != (nrows, len(old) + len(want)) or not _eq_labels(after[3], before[3]):
+            problem = f'step {k + 1}: {op[0]} {given!r} accepted: columns {after[0][-4:]} (shape {after[1]}) instead of {(old + want)[-4:]}'
+        elif after[2][:len(before[2])] != before[2]:
+            problem = f'step {k + 1}: the columns present before changed (values or dtype)'
+        else:
+            for j, g in enumerate(given):
+                try:
+                    got = f[key_of(g) if key_of else g].values.tolist()
+                except Exception as e:  # noqa
+                    problem = f'step {k + 1}: after giving {g!r}, reading f[{g!r}] raises {type(e).__name__}'
+                    break
+                if got != data[:, j].tolist():
+                    problem = f'step {k + 1}: f[{g!r}] holds {got}, given {data[:, j].tolist()}'
+                    break
+            if not problem:
+                why = _alt_reads(f, _column_reads(f))
+                if why:
+                    problem = f'step {k + 1}: {why}'
+    if not problem:
+        for w, b in zip(watched, seen_before):
+            if content(w) != b:
+                problem = f'growth changed a container the frame was built from: {str(b)[:100]} -> {str(content(w))[:100]}'
+                break
+            mine = {id(o): p_ for p_, o in mutable_parts(f, grown_only=True)}
+            for p_, o in mutable_parts(w):
+                if id(o) in mine:
+                    problem = f'the frame shares the mutable object {mine[id(o)]} with a container it was built from'
+                    break
+    return steps, problem
+
+
+def _frame_routes():
+    """name -> builder() -> (FrameGO, watched containers, ops, coerce or None)"""
+    import static_frame as sf
+    idx3 = ('x', 'y', 'z')
+    std = [('set', 'n1'), ('extend', ['n2', 'n3']), ('set', 'n1'), ('set-bad', 'n4'), ('extend', ['n5', 'n2']), ('ext_series', 'n6'), ('set', 'n7')]
+    ints = [('set', 7), ('extend', [8, 9]), ('set', 7), ('extend', [10, 8]), ('set', 'n1')]
+    R = {}
+
+    def add(name, fn):
+        R[name] = fn
+    a23 = lambda: np.arange(6).reshape(3, 2)
+    add('FrameGO(ndarray)', lambda: (sf.FrameGO(a23(), index=idx3, columns=('a', 'b')), [], std, None))
+    add('FrameGO(ndarray,own_data)', lambda: (sf.FrameGO(a23(), index=idx3, columns=('a', 'b'), own_data=True), [], std, None))
+    add('FrameGO(ndarray)-auto', lambda: (sf.FrameGO(a23()), [], [('set', 2), ('set', 1), ('extend', [3, 4]), ('set', 'n1'), ('extend', [9, 3])], None))
+    add('FrameGO(1d ndarray)', lambda: (sf.FrameGO(np.arange(3), index=idx3, columns=('a',)), [], std, None))
+    add('FrameGO(index only)', lambda: (sf.FrameGO(index=idx3), [], std, None))
+    add('FrameGO(columns only)', lambda: (sf.FrameGO(columns=('a', 'b')), [], [('set', 'n1'), ('extend', ['n2', 'n3']), ('set', 'a')], None))
+    add('FrameGO()', lambda: (sf.FrameGO(), [], [('set', 'n1'), ('extend', ['n2']), ('set', 'n1')], None))
+    add('FrameGO(index,columns) zero rows', lambda: (sf.FrameGO(index=(), columns=('a', 'b')), [], [('set', 'n1'), ('extend', ['n2'])], None))
+    add('from_records', lambda: (sf.FrameGO.from_records([(1, 'p'), (2, 'q'), (3, 'r')], index=idx3, columns=('a', 'b')), [], std, None))
+    add('from_records-auto', lambda: (sf.FrameGO.from_records([(1, 'p'), (2, 'q'), (3, 'r')]), [], ints[:0] + [('set', 2), ('extend', [3, 4]), ('set', 0)], None))
+    add('from_dict_records', lambda: (sf.FrameGO.from_dict_records([{'a': 1, 'b': 2}, {'a': 3, 'b': 4}, {'a': 5, 'b': 6}], index=idx3), [], std, None))
+    add('from_dict', lambda: (sf.FrameGO.from_dict({'a': (1, 2, 3), 'b': (4., 5., 6.)}, index=idx3), [], std, None))
+    add('from_items', lambda: (sf.FrameGO.from_items((('a', (1, 2, 3)), ('b', ('p', 'q', 'r'))), index=idx3), [], std, None))
+    add('from_fields', lambda: (sf.FrameGO.from_fields(((1, 2, 3), (4, 5, 6)), index=idx3, columns=('a', 'b')), [], std, None))
+    add('from_element', lambda: (sf.FrameGO.from_element(0, index=idx3, columns=('a', 'b')), [], std, None))
+    add('from_elements', lambda: (sf.FrameGO.from_elements((1, 2, 3), index=idx3, columns=('a',)), [], std, None))
+    add('from_structured_array', lambda: (sf.FrameGO.from_structured_array(np.array([(1, 2.5), (3, 4.5), (5, 6.5)], dtype=[('a', int), ('b', float)])), [], [('set', 'n1'), ('extend', ['n2', 'n3']), ('set', 'a')], None))
+
+    def series_route(axis):
+        def b():
+            s = sf.Series((1, 2, 3), index=idx3, name='a')
+            f = s.to_frame_go(axis=axis)
+            ops = std if axis == 1 else [('set', 'n1'), ('extend', ['n2', 'x']), ('set', 'y')]
+            return f, [s], ops, None
+        return b
+    add('Series.to_frame_go(axis=1)', series_route(1))
+    add('Series.to_frame_go(axis=0)', series_route(0))
+
+    def from_series():
+        s = sf.Series((1, 2, 3), index=idx3, name='a')
+        return sf.FrameGO.from_series(s), [s], std, None
+    add('from_series', from_series)
+
+    def from_concat(axis, go_src):
+        def b():
+            cls = sf.FrameGO if go_src else sf.Frame
+            f1 = cls.from_dict({'a': (1, 2, 3)}, index=idx3)
+            f2 = cls.from_dict({'b': (4, 5, 6)}, index=idx3) if axis == 1 else cls.from_dict({'a': (4, 5, 6)}, index=('u', 'v', 'w'))
+            return sf.FrameGO.from_concat((f1, f2), axis=axis), [f1, f2], [('set', 'n1'), ('extend', ['n2', 'a']), ('set', 'n3')], None
+        return b
+    for axis in (0, 1):
+        for go_src in (False, True):
+            add(f'from_concat(axis={axis},{"FrameGO" if go_src else "Frame"} parts)', from_concat(axis, go_src))
+
+    def from_concat_items(axis):
+        def b():
+            f1 = sf.Frame.from_dict({'a': (1, 2, 3)}, index=idx3)
+            f2 = sf.FrameGO.from_dict({'b': (4, 5, 6)}, index=idx3)
+            f = sf.FrameGO.from_concat_items((('A', f1), ('B', f2)), axis=axis)
+            if axis == 1:
+                return f, [f1, f2], [('set', ('B', 'n1')), ('set', ('A', 'zz')), ('set', ('C', 'n2')), ('set', ('B', 'b'))], None
+            return f, [f1, f2], [('set', 'n1'), ('set', 'a')], None
+        return b
+    add('from_concat_items(axis=1)', from_concat_items(1))
+    add('from_concat_items(axis=0)', from_concat_items(0))
+
+    def with_columns_object(kind):
+        def b():
+            if kind == 'IndexGO':
+                c = sf.IndexGO(('a', 'b'))
+            elif kind == 'Index':
+                c = sf.Index(('a', 'b'))
+            elif kind == 'IndexGO-grown':
+                c = sf.IndexGO(('a',))
+                c.append('b')
+            elif kind == 'IndexHierarchyGO':
+                c = sf.IndexHierarchyGO.from_labels((('A', 'a'), ('A', 'b')))
+            elif kind == 'IndexHierarchy':
+                c = sf.IndexHierarchy.from_labels((('A', 'a'), ('A', 'b')))
+            elif kind == 'Series':
+                c = sf.Series(('a', 'b'))
+            f = sf.FrameGO(a23(), index=idx3, columns=c)
+            if 'Hierarchy' in kind:
+                return f, [c], [('set', ('A', 'n1')), ('set', ('B', 'n1')), ('set', ('A', 'a')), ('set', ('A', 'n2'))], None
+            return f, [c], std, None
+        return b
+    for kind in ('IndexGO', 'Index', 'IndexGO-grown', 'IndexHierarchyGO', 'IndexHierarchy', 'Series'):
+        add(f'FrameGO(columns={kind} object)', with_columns_object(kind))
+
+    def with_index_object():
+        i = sf.Index(idx3)
+        return sf.FrameGO(a23(), index=i, columns=('a', 'b')), [i], std, None
+    add('FrameGO(index=Index object)', with_index_object)
+    add('FrameGO(columns_constructor=IndexGO)', lambda: (sf.FrameGO(a23(), index=idx3, columns=('a', 'b'), columns_constructor=sf.IndexGO), [], std, None))
+
+    def date_columns(cls_name, explicit):
+        def b():
+            unit = TYPED[cls_name]
+            labels = {'Y': ['2019', '2020'], 'M': ['2020-01', '2020-02'], 'D': ['2020-01-01', '2020-01-02']}[unit]
+            ctor = getattr(sf, cls_name)
+            f = (sf.FrameGO(a23(), index=idx3, columns=labels, columns_constructor=ctor) if explicit
+                 else sf.FrameGO(a23(), index=idx3, columns=ctor(labels)))
+            new = {'Y': ['2021', '2022-05', '2021-07', '2023'], 'M': ['2020-03', '2020-04-15', '2020-03-20', '2020-05'],
+                   'D': ['2020-01-03', '2020-01-04', '2020-01-03', '2020-01-05']}[unit]
+            ops = [('set', new[0]), ('set', np.datetime64(new[1])), ('set', new[2]), ('set', labels[0]), ('extend', [np.datetime64(new[3], unit)])]
+            return f, [], ops, (lambda v: str(np.datetime64(v, unit))), (lambda v: np.datetime64(v, unit))
+        return b
+    for cls_name in sorted(TYPED):
+        add(f'FrameGO(columns_constructor={cls_name})', date_columns(cls_name, True))
+        add(f'FrameGO(columns={cls_name} object)', date_columns(cls_name, False))
+
+    def derived(how):
+        def b():
+            g = sf.FrameGO.from_dict({'a': (1, 2, 3), 'b': (4., 5., 6.)}, index=idx3)
+            f = {'set_index': lambda: g.set_index('a'), 'set_index_hierarchy': lambda: g.set_index_hierarchy(['a', 'b']),
+                 'unset_index': lambda: g.unset_index(), 'relabel_level_add': lambda: g.relabel_level_add(columns='A'),
+                 'astype': lambda: g.astype(float), 'iloc-2d-block': lambda: sf.FrameGO(a23(), index=idx3, columns=('a', 'b')).iloc[:, 1:],
+                 'transpose': lambda: g.transpose()}[how]()
+            ops = std
+            if how == 'relabel_level_add':
+                ops = [('set', ('A', 'n1')), ('set', ('B', 'n1')), ('set', ('A', 'a'))]
+            if how == 'transpose':
+                ops = [('set', 'n1'), ('extend', ['n2', 'x']), ('set', 'y')]
+            if how == 'unset_index':
+                ops = [('set', 'n1'), ('extend', ['n2', 'a']), ('set', '__index0__')]
+            return f, [g], ops, None
+        return b
+    def pickled_frame(kind):
+        def b():
+            import pickle
+            import copy
+            g = sf.FrameGO.from_dict({'a': (1, 2, 3), 'b': (4., 5., 6.)}, index=idx3)
+            g['c'] = ('p', 'q', 'r')
+            f = {'pickle': lambda: pickle.loads(pickle.dumps(g)), 'deepcopy': lambda: copy.deepcopy(g),
+                 'pickle-auto': lambda: pickle.loads(pickle.dumps(sf.FrameGO(a23())))}[kind]()
+            if kind == 'pickle-auto':
+                return f, [], [('set', 2), ('set', 1), ('extend', [3, 4]), ('set', 'n1')], None
+            return f, [g], std, None
+        return b
+    for kind in ('pickle', 'deepcopy', 'pickle-auto'):
+        add('FrameGO ' + kind, pickled_frame(kind))
+    for how in ('set_index', 'set_index_hierarchy', 'unset_index', 'relabel_level_add', 'astype', 'iloc-2d-block', 'transpose'):
+        add('FrameGO.' + how, derived(how))
+    return R
+
+
+def _refused_routes():
+    """Constructions that must be refused: a static frame never holds a grow-only index, a FrameGO never a static one."""
+    import static_frame as sf
+    a = lambda: np.arange(4).reshape(2, 2)
+    return {
+        'Frame(columns_constructor=IndexGO)': lambda: sf.Frame(a(), columns=('a', 'b'), columns_constructor=sf.IndexGO),
+        'FrameGO(columns_constructor=Index)': lambda: sf.FrameGO(a(), columns=('a', 'b'), columns_constructor=sf.Index),
+        'Frame(index_constructor=IndexGO)': lambda: sf.Frame(a(), index=('x', 'y'), index_constructor=sf.IndexGO),
+        'FrameGO(index_constructor=IndexGO)': lambda: sf.FrameGO(a(), index=('x', 'y'), index_constructor=sf.IndexGO),
+        'Frame(index=IndexGO,own_index)': lambda: sf.Frame(a(), index=sf.IndexGO(('x', 'y')), own_index=True),
+        'Frame(columns=IndexGO,own_columns)': lambda: sf.Frame(a(), columns=sf.IndexGO(('a', 'b')), own_columns=True),
+        'FrameHE(columns_constructor=IndexHierarchyGO.from_labels)': lambda: sf.FrameHE(a(), columns=(('A', 'a'), ('A', 'b')), columns_constructor=sf.IndexHierarchyGO.from_labels),
+        'FrameGO(index,columns) without data': lambda: sf.FrameGO(index=('x',), columns=('a',)),
+        'FrameGO(dict)': lambda: sf.FrameGO({'a': (1, 2)}),
+        'FrameGO(Series)': lambda: sf.FrameGO(sf.Series((1, 2))),
+        'FrameGO(list)': lambda: sf.FrameGO([1, 2]),
+        'Series(index_constructor=IndexGO)': lambda: sf.Series((1, 2), index=('x', 'y'), index_constructor=sf.IndexGO),
+        'Series(index=IndexGO,own_index)': lambda: sf.Series((1, 2), index=sf.IndexGO(('x', 'y')), own_index=True),
+    }
+
+
+def _index_routes():
+    import static_frame as sf
+    R = {}
+    std = [('append', 'n1'), ('extend', ['n2', 'n3']), ('append', 'n1'), ('read',), ('extend', ['n4', 'n2']), ('extend', []), ('append', 'n5')]
+
+    def add(name, fn):
+        R[name] = fn
+    add('IndexGO(generator)', lambda: (sf.IndexGO(x for x in 'ab'), [], std, None))
+    add('IndexGO(ndarray)', lambda: (sf.IndexGO(np.array(['a', 'b'])), [], std, None))
+    add('IndexGO(dtype=object)', lambda: (sf.IndexGO(('a', 'b'), dtype=object), [], std + [('append', 5), ('append', None), ('append', 5)], None))
+    add('IndexGO(name=)', lambda: (sf.IndexGO(('a', 'b'), name='nm'), [], std, None))
+
+    def from_container(kind):
+        def b():
+            src = {'Series': lambda: sf.Series(('a', 'b')), 'Frame-2d': lambda: sf.Frame(np.array([['a', 'b'], ['c', 'd']])),
+                   'Index': lambda: sf.Index(('a', 'b')), 'IndexGO': lambda: sf.IndexGO(('a', 'b')),
+                   'IndexHierarchy': lambda: sf.IndexHierarchy.from_labels((('a', 1), ('b', 1))),
+                   'IndexDate': lambda: sf.IndexDate(('2020-01-01', '2020-01-02'))}[kind]()
+            idx = sf.IndexGO(src)
+            ops = std
+            if kind in ('Frame-2d', 'IndexHierarchy'):
+                ops = [('append', ('z', 9)), ('append', 'n1'), ('extend', [('q', 1), ('z', 9)]), ('append', idx.values[0])]
+            if kind == 'IndexDate':
+                ops = [('append', np.datetime64('2020-01-03')), ('append', np.datetime64('2020-01-01')), ('append', 'n1')]
+            return idx, [src], ops, None
+        return b
+    for kind in ('Series', 'Frame-2d', 'Index', 'IndexGO', 'IndexHierarchy', 'IndexDate'):
+        add(f'IndexGO({kind})', from_container(kind))
+
+    def typed(cls_name, how):
+        def b():
+            unit = TYPED[cls_name]
+            ctor = getattr(sf, cls_name)
+            co = lambda v: str(np.datetime64(v, unit))
+            if how == 'labels':
+                idx = ctor({'Y': ['2019'], 'M': ['2020-01'], 'D': ['2020-01-01']}[unit])
+            elif how == 'ndarray-other-unit':
+                idx = ctor(np.array(['2020-01-01', '2021-02-01'], dtype='datetime64[D]'))
+            elif how == 'from_date_range':
+                idx = ctor.from_date_range('2020-01-01', '2020-03-05')
+            elif how == 'from_year_month_range':
+                idx = ctor.from_year_month_range('2020-01', '2020-02')
+            elif how == 'from_year_range':
+                idx = ctor.from_year_range('2019', '2020')
+            elif how == 'from-static':
+                idx = ctor(getattr(sf, cls_name[:-2])(['2020-01-01', '2021-01-01']))
+            new = ['2030', '2031-02', '2032-03-04', '2030-05-06']
+            ops = [('append', new[0]), ('append', np.datetime64(new[1])), ('extend', [new[2]]), ('append', new[3]), ('read',),
+                   ('append', __import__('datetime').date(2033, 1, 1)), ('append', str(idx.values[0]))]
+            return idx, [], ops, co, (lambda v: np.datetime64(v, unit))
+        return b
+    for cls_name in sorted(TYPED):
+        for how in ('labels', 'ndarray-other-unit', 'from_date_range', 'from_year_month_range', 'from_year_range', 'from-static'):
+            add(f'{cls_name}:{how}', typed(cls_name, how))
+
+    def hier(how):
+        def b():
+            IH = sf.IndexHierarchyGO
+            watched = []
+            co = None
+            if how == 'from_product':
+                a, c = sf.Index(('a', 'b')), sf.IndexGO((1, 2))
+                watched = [a, c]
+                ih = IH.from_product(a, c)
+            elif how == 'from_product-iterables':
+                ih = IH.from_product(('a', 'b'), (1, 2))
+            elif how == 'from_tree':
+                ih = IH.from_tree({'a': (1, 2), 'b': (1, 2)})
+            elif how == 'from_tree-deep':
+                ih = IH.from_tree({'a': {'x': (1, 2), 'y': (1,)}, 'b': {'x': (1,), 'y': (1, 2)}})
+            elif how == 'from_index_items':
+                a, c = sf.Index((1, 2)), sf.IndexGO((1, 2))
+                watched = [a, c]
+                ih = IH.from_index_items((('a', a), ('b', c)))
+            elif how == 'from_labels_delimited':
+                ih = IH.from_labels_delimited(("'a' 1", "'a' 2", "'b' 1", "'b' 2"))
+            elif how == 'from_labels-reorder':
+                ih = IH.from_labels((('b', 1), ('a', 1), ('b', 2), ('a', 2)), reorder_for_hierarchy=True)
+            elif how == 'from_labels-continuation':
+                ih = IH.from_labels((('a', 1), (None, 2), ('b', 1), (None, 2)), continuation_token=None)
+            elif how == 'from_labels-generator':
+                ih = IH.from_labels(x for x in (('a', 1), ('a', 2), ('b', 1), ('b', 2)))
+            elif how == 'from_names':
+                ih = IH.from_names(('p', 'q'))
+            elif how == 'from_labels-empty':
+                ih = IH.from_labels((), depth_reference=2)
+            elif how == 'GO(static)':
+                s = sf.IndexHierarchy.from_product(('a', 'b'), (1, 2))
+                watched = [s]
+                ih = IH(s)
+            elif how == 'GO(GO)':
+                s = IH.from_product(('a', 'b'), (1, 2))
+                watched = [s]
+                ih = IH(s)
+            elif how == 'copy-of-grown':
+                s = IH.from_product(('a', 'b'), (1, 2))
+                s.append(('b', 3))
+                watched = [s]
+                ih = s.copy()
+            elif how == 'set_index_hierarchy':
+                f = sf.Frame.from_records((('a', 1, 0), ('a', 2, 0), ('b', 1, 0), ('b', 2, 0)), columns=('p', 'q', 'r')).set_index_hierarchy(('p', 'q'))
+                watched = [f]
+                ih = IH(f.index)
+            elif how == 'level_add':
+                s = sf.IndexGO((1, 2))
+                watched = [s]
+                ih = s.level_add('b')
+                return ih, watched, [('append', ('b', 3)), ('append', ('c', 1)), ('append', ('b', 1)), ('append', ('a', 1)), ('read',), ('append', ('c', 2))], None
+            elif how in ('date-inner', 'date-outer'):
+                ctors = (sf.IndexGO, sf.IndexDateGO) if how == 'date-inner' else (sf.IndexDateGO, sf.IndexGO)
+                labs = ((('a', '2020-01-01'), ('a', '2020-01-02'), ('b', '2020-01-01'), ('b', '2020-01-02')) if how == 'date-inner'
+                        else (('2020-01-01', 1), ('2020-01-01', 2), ('2020-01-02', 1), ('2020-01-02', 2)))
+                ih = IH.from_labels(labs, index_constructors=ctors)
+                d = lambda s: np.datetime64(s, 'D')
+                cod = lambda v: tuple(str(np.datetime64(x, 'D')) if (i == (1 if how == 'date-inner' else 0)) else _j(x) for i, x in enumerate(v))
+                if how == 'date-inner':
+                    ops = [('append', ('b', d('2020-01-03'))), ('append', ('b', '2020-01-04')), ('append', ('b', d('2020-01-02'))), ('append', ('b', '2020-01-03')),
+                           ('append', ('c', d('2020-01-01'))), ('append', ('a', d('2020-01-09'))), ('read',), ('append', ('c', '2020-01-02'))]
+                else:
+                    ops = [('append', (d('2020-01-02'), 3)), ('append', ('2020-01-02', 4)), ('append', (d('2020-01-03'), 1)), ('append', ('2020-01-03', 2)),
+                           ('append', (d('2020-01-01'), 9)), ('append', (d('2020-01-03'), 1)), ('read',)]
+                pos_d = 1 if how == 'date-inner' else 0
+                return ih, [], ops, cod, (lambda v: tuple(np.datetime64(x, 'D') if i == pos_d else x for i, x in enumerate(v)))
+            if how in ('from_names', 'from_labels-empty'):
+                ops = [('append', ('a', 1)), ('append', ('a', 2)), ('append', ('a', 1)), ('append', ('b', 1)), ('read',), ('append', ('a', 3)),
+                       ('extend', sf.IndexHierarchy.from_labels((('c', 1), ('c', 2))))]
+            elif how == 'from_tree-deep':
+                ops = [('append', ('b', 'y', 3)), ('append', ('b', 'x', 3)), ('append', ('b', 'z', 1)), ('append', ('a', 'y', 9)), ('append', ('c', 'x', 1)),
+                       ('read',), ('append', ('c', 'x', 1)), ('extend', sf.IndexHierarchy.from_labels((('d', 'x', 1), ('d', 'y', 1))))]
+            else:
+                ops = [('append', ('b', 3)), ('append', ('b', 1)), ('append', ('a', 3)), ('append', ('c', 1)), ('read',), ('append', ('c', 2)),
+                       ('extend', sf.IndexHierarchy.from_labels((('d', 1), ('e', 1)))), ('extend', sf.IndexHierarchyGO.from_labels((('f', 1), ('b', 9)))),
+                       ('append', ('f',)), ('append', ('e', 2))]
+            return ih, watched, ops, co
+        return b
+    def pickled(kind):
+        def b():
+            import pickle
+            src = {'IndexGO': lambda: sf.IndexGO(('a', 'b')), 'IndexGO-grown': lambda: _grown_index(),
+                   'IndexGO-auto': lambda: sf.IndexGO(range(2), loc_is_iloc=True),
+                   'IndexHierarchyGO': lambda: sf.IndexHierarchyGO.from_product(('a', 'b'), (1, 2)),
+                   'IndexHierarchyGO-3': lambda: sf.IndexHierarchyGO.from_product(('a', 'b'), ('x', 'y'), (1, 2)),
+                   'IndexDateGO': lambda: sf.IndexDateGO(('2020-01-01', '2020-01-02'))}[kind]()
+            if kind == 'IndexHierarchyGO':
+                src.append(('b', 3))
+            idx = pickle.loads(pickle.dumps(src))
+            if kind == 'IndexGO-auto':
+                return idx, [src], [('append', 2), ('append', 1), ('extend', [3, 4]), ('append', 'n1'), ('read',), ('extend', [9, 3])], None
+            if kind == 'IndexHierarchyGO':
+                return idx, [src], [('append', ('b', 4)), ('append', ('b', 1)), ('append', ('a', 5)), ('append', ('c', 1)), ('read',),
+                                    ('extend', sf.IndexHierarchy.from_labels((('d', 1), ('e', 1))))], None
+            if kind == 'IndexHierarchyGO-3':
+                return idx, [src], [('append', ('b', 'y', 3)), ('append', ('b', 'x', 3)), ('append', ('b', 'z', 1)), ('append', ('c', 'x', 1)), ('read',)], None
+            if kind == 'IndexDateGO':
+                return idx, [src], [('append', '2020-01-03'), ('append', np.datetime64('2020-01-01')), ('extend', ['2020-02-01'])], \
+                    (lambda v: str(np.datetime64(v, 'D'))), (lambda v: np.datetime64(v, 'D'))
+            return idx, [src], std, None
+        return b
+    for kind in ('IndexGO', 'IndexGO-grown', 'IndexGO-auto', 'IndexHierarchyGO', 'IndexHierarchyGO-3', 'IndexDateGO'):
+        add('pickle round trip:' + kind, pickled(kind))
+    add('IndexGO((), dtype=int64)', lambda: (sf.IndexGO((), dtype=np.int64), [], [('append', 5), ('append', 5), ('extend', [6, 7]), ('read',), ('extend', [8, 6])], None))
+    add('IndexGO(())', lambda: (sf.IndexGO(()), [], std, None))
+    add('IndexGO(ndarray, dtype=same)', lambda: (sf.IndexGO(np.array([3, 4]), dtype=np.int64), [], [('append', 5), ('append', 3), ('extend', [6, 7]), ('read',)], None))
+
+    def hier_more(how):
+        def b():
+            IH = sf.IndexHierarchyGO
+            ops = [('append', ('b', 3)), ('append', ('b', 1)), ('append', ('a', 3)), ('append', ('c', 1)), ('read',), ('append', ('c', 2)),
+                   ('extend', sf.IndexHierarchy.from_labels((('d', 1), ('e', 1))))]
+            if how == 'from_labels-empty-2d-array':
+                return IH.from_labels(np.empty((0, 2), dtype=object)), [], [('append', ('a', 1)), ('append', ('a', 2)), ('append', ('a', 1)), ('append', ('b', 1)), ('read',)], None
+            s = IH.from_product(('a', 'b'), (1, 2))
+            if how == 'GO(GO)-after-read':
+                s.values
+                return IH(s), [s], ops, None
+            if how == 'GO(GO)-grown-unread':
+                s.append(('b', 9))
+                return IH(s), [s], ops[1:], None
+            if how == 'GO(levels)':
+                return IH(s._levels), [s], ops, None
+            if how == 'GO(levels,blocks)':
+                s.values
+                return IH(s._levels, blocks=s._blocks), [s], ops, None
+            if how == 'GO(static levels)':
+                st = sf.IndexHierarchy.from_product(('a', 'b'), (1, 2))
+                return IH(st._levels), [st], ops, None
+            if how == 'level_drop(-1)':
+                s3 = IH.from_product(('k',), ('a', 'b'), (1, 2))
+                return s3.level_drop(1), [s3], ops, None
+            if how == 'to_frame_go-columns':
+                fr = sf.FrameGO(np.arange(8).reshape(2, 4), columns=s)
+                return fr.columns.copy(), [s, fr], ops, None
+        return b
+    for how in ('from_labels-empty-2d-array', 'GO(GO)-after-read', 'GO(GO)-grown-unread', 'GO(levels)', 'GO(levels,blocks)', 'GO(static levels)',
+                'level_drop(-1)', 'to_frame_go-columns'):
+        add('IndexHierarchyGO:' + how, hier_more(how))
+    for how in ('from_product', 'from_product-iterables', 'from_tree', 'from_tree-deep', 'from_index_items', 'from_labels_delimited', 'from_labels-reorder',
+                'from_labels-continuation', 'from_labels-generator', 'from_names', 'from_labels-empty', 'GO(static)', 'GO(GO)', 'copy-of-grown',
+                'set_index_hierarchy', 'level_add', 'date-inner', 'date-outer'):
+        add('IndexHierarchyGO:' + how, hier(how))
+    return R
+
+
+def array_go_history(how, ops):
+    """ArrayGO (the grow-only array behind IndexLevelGO.targets): a list that only grows; copies are independent."""
+    from static_frame.core.array_go import ArrayGO
+    base = ['a', 'b', 'c']
+    src = None
+    if how == 'list':
+        a = ArrayGO(list(base))
+    elif how == 'tuple':
+        a = ArrayGO(tuple(base))
+    elif how == 'ndarray':
+        src = np.array(base, dtype=object)
+        a = ArrayGO(src)
+    elif how == 'ndarray-own':
+        src = np.array(base, dtype=object)
+        a = ArrayGO(src, own_iterable=True)
+    elif how == 'pickled':
+        import pickle
+        a0 = ArrayGO(list(base[:2]))
+        a0.append('c')
+        a = pickle.loads(pickle.dumps(a0))
+        src = a0
+    elif how == 'copy-of-grown':
+        a0 = ArrayGO(list(base[:2]))
+        a0.append('c')
+        a = a0.copy()
+        src = a0
+    model = list(base)
+    copies = []
+    steps, problem = [], None
+    for k, op in enumerate(ops):
+        try:
+            if op[0] == 'append':
+                a.append(op[1])
+                model.append(op[1])
+            elif op[0] == 'extend':
+                a.extend(op[1])
+                model.extend(op[1])
+            elif op[0] == 'copy':
+                copies.append((a.copy() if op[1] == 'copy' else __import__('copy').deepcopy(a), list(model)))
+            elif op[0] == 'grow-copy':
+                if copies:
+                    copies[-1][0].append('k' + str(k))
+                    copies[-1][1].append('k' + str(k))
+            got = (list(a), len(a), list(a.values), a[-1] if model else None, list(a[1:]))
+        except Exception as e:  # noqa
+            steps.append({'op': _j(list(op)), 'raised': type(e).__name__})
+            problem = problem or f'step {k + 1}: {op!r} raised {type(e).__name__}: {str(e)[:80]}'
+            break
+        steps.append({'op': _j(list(op)), 'values': _j(got[0])})
+        if problem:
+            continue
+        if got[0] != model or got[1] != len(model) or got[2] != model or (model and got[3] != model[-1]) or got[4] != model[1:]:
+            problem = f'step {k + 1}: after {op!r} the array reads {got[0]} (len {got[1]}, values {got[2]}), expected {model}'
+        for c, m in copies:
+            if list(c) != m or list(c.values) != m:
+                problem = problem or f'step {k + 1}: a copy taken earlier reads {list(c)}, expected {m}'
+        if a.values.flags.writeable:
+            problem = problem or f'step {k + 1}: ArrayGO.values is writeable'
+    if not problem and isinstance(src, np.ndarray) and src.tolist() != base:
+        problem = f'the array the ArrayGO was built from changed: {src.tolist()}'
+    if not problem and how in ('copy-of-grown', 'pickled') and list(src) != base:
+        problem = f'the ArrayGO that was copied changed: {list(src)}'
+    return {'container': 'ArrayGO', 'built_from': how, 'steps': steps}, problem
+
+
+def routes_cases(ctx):
+    rng = ctx.rng
+    for name, build in sorted(_frame_routes().items()):
+        try:
+            f, watched, ops, co, *rest = build()
+            steps, problem = growth_check_frame(f, ops, co, watched, rest[0] if rest else None)
+        except Exception as e:  # noqa
+            yield _escaped('api:routes-FrameGO', {'route': name}, e, {'container': 'FrameGO', 'route': name})
+            continue
+        ctx.count('routes:FrameGO')
+        tags = {'container': 'FrameGO', 'route': name}
+        yield Case('api:routes-FrameGO', {'route': name, 'steps': steps}, py_fail=problem, tags=tags,
+                   nontrivial=any(s['raised'] is None for s in steps), key='route|' + name)
+    for name, build in sorted(_refused_routes().items()):
+        exc = _call(build)
+        ctx.count('routes:refused')
+        yield Case('api:routes-refused', {'route': name, 'raised': None if exc is None else type(exc).__name__},
+                   py_fail=None if exc is not None else f'{name} was accepted: a static container holding a grow-only index (or a FrameGO holding static columns)',
+                   tags={'container': 'constructor', 'route': name}, key='refused|' + name)
+    for name, build in sorted(_index_routes().items()):
+        try:
+            idx, watched, ops, co, *rest = build()
+            steps, problem = growth_check_index(idx, ops, co, watched, rest[0] if rest else None)
+        except Exception as e:  # noqa
+            yield _escaped('api:routes-index', {'route': name}, e, {'container': 'index', 'route': name})
+            continue
+        ctx.count('routes:index')
+        yield Case('api:routes-index', {'route': name, 'steps': steps}, py_fail=problem, tags={'container': 'index', 'route': name},
+                   nontrivial=any(s['raised'] is None for s in steps), key='iroute|' + name)
+    alphabet = [('append', 'x'), ('extend', ['y', 'z']), ('extend', []), ('copy', 'copy'), ('copy', 'deepcopy'), ('grow-copy',), ('append', None)]
+    for how in ('list', 'tuple', 'ndarray', 'ndarray-own', 'copy-of-grown', 'pickled'):
+        for n in (1, 2, 3):
+            for ops in itertools.product(alphabet, repeat=n):
+                if n == 3 and rng.random() > (0.12 if ctx.tier == 'quick' else 1.0):
+                    continue
+                try:
+                    desc, problem = array_go_history(how, list(ops))
+                except Exception as e:  # noqa
+                    yield _escaped('api:ArrayGO', {'built_from': how, 'ops': _j([list(o) for o in ops])}, e, {'container': 'ArrayGO'})
+                    continue
+                ctx.count('routes:ArrayGO')
+                yield Case('api:ArrayGO', desc, py_fail=problem, tags={'container': 'ArrayGO'})
+
+
+# ----------------------------------------------------------------------------- TypeBlocks grown directly (kernel level)
+TB_KINDS = {
+    'i': (np.int64, [1, 2, 3, -4]), 'u': (np.uint8, [0, 7, 200]), 'f': (np.float64, [1.5, -0.25, NAN]), 'b': (np.bool_, [True, False]),
+    'U': (np.dtype('<U2'), ['p', 'qq']), 'W': (np.dtype('<U5'), ['hello', 'z']), 'S': (np.dtype('S2'), [b'ab', b'c']),
+    'O': (np.dtype(object), [1, 'a', None]), 'D': (np.dtype('<M8[D]'), [np.datetime64('2020-01-01'), np.datetime64('2021-06-05')]),
+    'Y': (np.dtype('<M8[Y]'), [np.datetime64('2020'), np.datetime64('1999')]), 'm': (np.dtype('<m8[D]'), [np.timedelta64(3, 'D'), np.timedelta64(0, 'D')]),
+}
+
+
+def _tb_block(rng, rows, width=None, kind=None):
+    dt, pool = TB_KINDS[kind or rng.choice(sorted(TB_KINDS))]
+    if width is None:                                     # 1-D
+        return _arr(dt, [rng.choice(pool) for _ in range(rows)])
+    a = np.empty((rows, width), dtype=dt)
+    for j in range(width):
+        a[:, j] = _arr(dt, [rng.choice(pool) for _ in range(rows)]) if rows else a[:, j]
+    a.flags.writeable = False
+    return a
+
+
+def _tbseen_lit(tb):
+    cols = _column_reads(type('F', (), {'_blocks': tb})())
+    shape = tuple(int(x) for x in tb.shape)
+    rd = 'None' if tb._row_dtype is None else f'(Some {lit.dtype(tb._row_dtype)})'
+    lay = [((b.shape[1] if b.ndim == 2 else 1), b.ndim == 2) for b in tb._blocks]
+    return (f'(mk_tbseen {lit.lst([f"({lit.dtype(d)}, {lit.vlist(v)})" for d, v in cols])} ({lit.z(shape[0])}, {lit.z(shape[1])}) '
+            f'{lit.lst([lit.dtype(d) for d in tb._dtypes])} {rd} {lit.lst([f"({lit.z(w)}, {lit.b(d)})" for w, d in lay])})'), cols, shape
+
+
+def tb_history(rows, init_blocks, ops):
+    from static_frame.core.type_blocks import TypeBlocks
+    tb = TypeBlocks.from_blocks(init_blocks) if init_blocks else TypeBlocks.from_zero_size_shape((rows, 0))
+    copy0 = tb.copy()
+    copy0_seen = _tbseen_lit(copy0)[0]
+    blocks0 = lit.lst([_blk_lit(b) for b in tb._blocks])
+    before0 = lit.lst([f'({lit.dtype(d)}, {lit.vlist(v)})' for d, v in _tbseen_lit(tb)[1]])
+    recs, steps, py_fail = [], [], None
+    for op in ops:
+        if op[0] == 'append':
+            exc = _call(lambda: tb.append(op[1]))
+            ol = f'(TAppend {_blk_lit(op[1])})'
+            what = ['append', str(op[1].dtype), list(op[1].shape)]
+        elif op[0] == 'extend_tb':
+            other = TypeBlocks.from_blocks(op[2]) if op[2] else TypeBlocks.from_zero_size_shape((op[1], 0))
+            exc = _call(lambda: tb.extend(other))
+            ol = f'(TExtendTB {lit.z(other.shape[0])} {lit.lst([_blk_lit(b) for b in other._blocks])})'
+            what = ['extend(TypeBlocks)', list(other.shape), [str(b.dtype) for b in other._blocks]]
+        else:
+            exc = _call(lambda: tb.extend(iter(op[1])))
+            ol = f'(TExtendList {lit.lst([_blk_lit(b) for b in op[1]])})'
+            what = ['extend(iterable)', [[str(b.dtype), list(b.shape)] for b in op[1]]]
+        seen, cols, shape = _tbseen_lit(tb)
+        recs.append(f'({ol}, {_out(exc)}, {seen})')
+        steps.append({'op': what, 'raised': None if exc is None else type(exc).__name__, 'shape': list(shape), 'dtypes': [str(d) for d in tb._dtypes]})
+        try:
+            if py_fail is None and tb.values.shape != (shape if shape[1] else (shape[0], 0)):
+                py_fail = f'values has shape {tb.values.shape}, shape is {shape}'
+        except Exception as e:  # noqa
+            py_fail = py_fail or f'values raises {type(e).__name__} after {what}'
+    if py_fail is None:
+        if _tbseen_lit(copy0)[0] != copy0_seen:
+            py_fail = 'a copy taken before the growth changed'
+        elif any(getattr(copy0, a) is getattr(tb, a) for a in ('_blocks', '_index', '_dtypes')):
+            py_fail = 'the copy shares a list with the TypeBlocks it was copied from'
+    h = lit.lst(recs)
+    desc = {'container': 'TypeBlocks', 'rows': rows, 'init': [[str(b.dtype), list(b.shape)] for b in init_blocks], 'steps': steps}
+    return desc, f'check_tb_M {lit.z(rows)} {blocks0} {h}', f'check_tb_S {lit.z(rows)} {before0} {h}', py_fail
+
+
+def tb_cases(ctx):
+    rng = ctx.rng
+    for _ in range(ctx.n(250, 2500)):
+        rows = rng.choice([0, 1, 2, 2, 3])
+        init = []
+        for _ in range(rng.randint(0, 3)):
+            init.append(_tb_block(rng, rows, rng.choice([None, None, 1, 2])))
+
+        def arg(r=None):
+            r = rows if r is None else r
+            w = rng.choice([None, None, 1, 2, 2, 0])
+            return _tb_block(rng, r, w)
+        ops = []
+        for _ in range(rng.randint(1, 4)):
+            c = rng.random()
+            if c < 0.45:
+                ops.append(('append', arg(rows if rng.random() < 0.8 else rows + 1)))
+            elif c < 0.75:
+                r = rows if rng.random() < 0.75 else rows + rng.choice([1, -1]) if rows else 1
+                r = max(r, 0)
+                bs = [_tb_block(rng, r, rng.choice([None, 1, 2])) for _ in range(rng.randint(0, 2))]
+                ops.append(('extend_tb', r, bs))
+            else:
+                bs = [arg() for _ in range(rng.randint(0, 3))]
+                if bs and rng.random() < 0.2:
+                    bs[-1] = arg(rows + 1)
+                ops.append(('extend_list', bs))
+        try:
+            desc, m, s, py_fail = tb_history(rows, init, ops)
+        except Exception as e:  # noqa
+            yield _escaped('kernel:TypeBlocks-growth', {'rows': rows, 'ops': [o[0] for o in ops]}, e, {'container': 'TypeBlocks'})
+            continue
+        ctx.count(f'tb:rows{rows}')
+        for st in desc['steps']:
+            ctx.count('tb:' + st['op'][0] + (':raised' if st['raised'] else ''))
+        yield Case('kernel:TypeBlocks-growth', desc, m=m, s=s, py_fail=py_fail, tags={'container': 'TypeBlocks'},
+                   nontrivial=any(st['raised'] is None for st in desc['steps']))
 
 
 # ----------------------------------------------------------------------------- generate(repo): decision tables
@@ -2538,5 +3331,7 @@ def cases(ctx):
     yield from hier_cases(ctx)
     yield from hier_frame_cases(ctx)
     yield from typed_cases(ctx)
+    yield from routes_cases(ctx)
+    yield from tb_cases(ctx)
     yield from world_cases(ctx)
     yield from sharing_cases(ctx)
